@@ -120,6 +120,18 @@ class St:
         s.unpriv_access = getattr(self, 'unpriv_access', False)
         return s
 
+    def map_terms(self, fn):
+        """a copy with fn applied to every component term"""
+        s = self.copy()
+        s.R = {k: fn(v) for k, v in self.R.items()}
+        s.cpsr = fn(self.cpsr)
+        s.spsr = {k: fn(v) for k, v in self.spsr.items()}
+        s.elr_hyp = fn(self.elr_hyp)
+        s.sys = {k: (fn(v) if z3.is_expr(v) else v) for k, v in self.sys.items()}
+        s.flags = {k: (fn(v) if z3.is_expr(v) else v) for k, v in self.flags.items()}
+        s.mem = fn(self.mem)
+        return s
+
     # ---- generic -------------------------------------------------------
     @property
     def arch(self):
